@@ -1,10 +1,9 @@
 SPECIFICATION Spec
 CONSTANTS
-  NU = 5
-  ND = 4
-  NT = 5
-  Kinds = {"ug", "dg", "tree"}
+  NU = 1
+  ND = 1
+  NT = 2
+  Kinds = {"rnd"}
 INVARIANT ReachConsistent
 INVARIANT TreeIffUnique
 INVARIANT TreeDepthIsDistance
-INVARIANT PrimIsMST
